@@ -9,6 +9,8 @@
 -/
 import OtterVerif.Impl.Maint
 import OtterVerif.Gen.CacheWrite
+import OtterVerif.Proofs.CacheJoint
+import OtterVerif.Proofs.WheelJoint
 
 namespace OtterVerif.Props.C05Maint
 open OtterVerif OtterVerif.Impl.Maint
@@ -62,5 +64,35 @@ theorem c05_only_old_unscheduled (f : Flags) (n old : Nat) (alive : Bool) (h : n
       cases a <;> cases b <;> cases alive <;> simp [runTask, h]
   · cases f with | mk a b =>
       cases a <;> cases b <;> cases alive <;> simp [runTask]
+
+/-! ### the calls, interpreted on Impl.Policy and Impl.Wheel, are the state changes the joint models use -/
+
+/-- what a call does to the pair (size policy, timer wheel); `dl n` = the deadline node n carries -/
+def interp (dl : Nat → Nat) (s : Impl.Policy.Policy × Impl.Wheel.Wheel) : Call → Impl.Policy.Policy × Impl.Wheel.Wheel
+  | .wheelAdd n => (s.1, Impl.Wheel.add s.2 n (dl n))
+  | .wheelDelete n => (s.1, Impl.Wheel.delete s.2 n)
+  | .policyAdd n => (Impl.Policy.add s.1 n, s.2)
+  | .policyUpdate n old => (Impl.Policy.update s.1 n old, s.2)
+  | .policyDelete n => (Impl.Policy.delete s.1 n, s.2)
+  | .policyAccess n => (Impl.Policy.access s.1 n, s.2)
+  | .notifyDeletion _ => s
+
+/-- replaying an add / update / delete event, or a drained read, changes the size policy exactly as the steps of
+    Proofs.CacheJoint assume (`add`, `update`, `delete`, `access` — before the eviction pass) and the timer wheel exactly as the
+    steps of Proofs.WheelJoint assume (Add; Delete old then Add new; Delete; a deadline move = Delete then Add) -/
+theorem c05_replay_is_joint_step (dl : Nat → Nat) (p : Impl.Policy.Policy) (w : Impl.Wheel.Wheel) (n old : Nat) :
+    (runTask ⟨true, true⟩ .add n old true).foldl (interp dl) (p, w) = (Impl.Policy.add p n, Impl.Wheel.add w n (dl n)) ∧
+    (runTask ⟨true, true⟩ .update n old true).foldl (interp dl) (p, w)
+      = (Impl.Policy.update p n old, Impl.Wheel.add (Impl.Wheel.delete w old) n (dl n)) ∧
+    (runTask ⟨true, true⟩ .delete n old true).foldl (interp dl) (p, w) = (Impl.Policy.delete p n, Impl.Wheel.delete w n) ∧
+    (onAccess ⟨true, true⟩ n true true).foldl (interp dl) (p, w)
+      = (Impl.Policy.access p n, Impl.Wheel.add (Impl.Wheel.delete w n) n (dl n)) := ⟨rfl, rfl, rfl, rfl⟩
+
+/-- without an expiration policy the wheel is never touched; without a size policy the size policy never is -/
+theorem c05_policies_independent (dl : Nat → Nat) (p : Impl.Policy.Policy) (w : Impl.Wheel.Wheel) (r : Reason) (n old : Nat)
+    (alive : Bool) :
+    ((runTask ⟨false, true⟩ r n old alive).foldl (interp dl) (p, w)).2 = w ∧
+    ((runTask ⟨true, false⟩ r n old alive).foldl (interp dl) (p, w)).1 = p := by
+  cases r <;> cases alive <;> exact ⟨rfl, rfl⟩
 
 end OtterVerif.Props.C05Maint
